@@ -340,8 +340,9 @@ def _audit(event, args):
     while f is not None and (f.f_code.co_filename.startswith(_STDLIB) or f.f_code.co_filename.startswith("<")):
         f = f.f_back
     if f is not None and f.f_code.co_filename.replace("\\", "/").endswith("aiocoap/oscore.py"):
-        if len(g.bypassed) < 20:
-            g.bypassed.append("%s %r at oscore.py:%d" % (event, args[:1], f.f_lineno))
+        what = "%s %s at oscore.py:%d" % (event, _base(args[0]) if args else "", f.f_lineno)
+        if what not in g.bypassed and len(g.bypassed) < 20:
+            g.bypassed.append(what)
 
 
 _installed = []
